@@ -153,8 +153,13 @@ func (f *Frame) extern(c *cursor, site ssa.Instruction, name string, sig *types.
 		e.assume(and(conj...), r.S)
 		return []Term{r}
 	case "strings.ContainsRune", "strings.Contains", "strings.ContainsAny":
-		e.U.declareFun("str.contains."+name[8:], []Sort{SStr, arg(1).Sort}, SBool)
-		return []Term{app(SBool, "str.contains."+name[8:], arg(0), arg(1))}
+		fn := map[string]string{"strings.ContainsRune": "str.contains.Rune", "strings.Contains": "str.contains.Str", "strings.ContainsAny": "str.contains.Any"}[name]
+		a1 := arg(1)
+		if name == "strings.ContainsRune" {
+			a1 = intArg(1)
+		}
+		e.U.declareFun(fn, []Sort{SStr, a1.Sort}, SBool)
+		return []Term{app(SBool, fn, arg(0), a1)}
 	case "strings.TrimRight":
 		s := arg(0)
 		r := fresh("trimright", SStr)
